@@ -6,6 +6,7 @@
    rebuilt from scratch by the implementation whenever no two adjacent faces are cocircular. *)
 From Coq Require Import ZArith List Bool Arith.
 From SpadeV Require Import Num.Decode Vmap.Model Vmap.Proofs Check.Run Cdt.SegSpecProofs.
+From SpadeV Require Props.C11b.   (* the executable model of removal: vertex table, count deltas, degenerate well-formedness *)
 
 Theorem C11_removed_vertex_and_swap : forall st i x, nth_error st i = Some x ->
      exists st', vm_remove st i = Some (st', x)
